@@ -165,6 +165,7 @@ class Session:
         st = ex.fresh_state()
         args = make_args(ex, st)
         ex.freeze()
+        self.initial_pc = st.pc
         ex.start(st, fname, args)
         ex.deadline = deadline
         return ex.run(st)
